@@ -39,7 +39,7 @@ REGSINGLE = ["User-Agent", "Cookie", "Referer", "Origin", "From"]
 NOISE = ["X-Noise", "X-Other", "DNT", "X-Requested-With"]
 SEPS = [",", ", ", " ,", ",,", ", ,", "\t,", " , ", ",\t"]
 SPECIAL = ['"', "%", ",", ", ", ";", "=", ":", "/", "?", "&", "+", " ", "\t", "<", ">", "#", "\\", "'", "~", "*", "%22", "%25",
-           "%2C", "%e9", "\xe9", "\xff", "\x80", "\xc3\xa9", "a", "B", "0", "-", "_", ".", "q=0.5", "gzip", "x\"y"]
+           "%2C", "%e9", "%E9", "%20", "\xe9", "\xff", "\x80", "\xc3\xa9", "a", "B", "0", "-", "_", ".", "q=0.5", "gzip", "x\"y"]
 TOKEN_RE = re.compile(r"^[!#$%&'*+\-.^_`|~0-9A-Za-z]+$")
 WS = " \t\r\n\v\f"
 
@@ -137,6 +137,15 @@ def gen_one(rng, k):
         vary = [rng.choice(['"%s"' % n0, '"%s, X-Bar"' % n0, '"a, %s' % n0, '%s="b", X-Bar' % n0, 'X-Bar\\, %s' % n0, '%s;q=1' % n0,
                             '%s X-Bar' % n0])]
         kind = "malformed"
+    elif shape < 0.27:
+        # aimed at the mark's framing: two requests whose marks would coincide if DQUOTE were not escaped
+        n1, n2 = rng.sample(UNREG + REGLIST, 2)
+        a, b_, c = rng.choice(["a", "1", "gzip"]), rng.choice(["b", "2", "br"]), rng.choice(["c", "3", "en"])
+        A = [[n1, '%s", %s="%s' % (a, n2.lower(), b_)], [n2, c]]
+        B = [[n1, a], [n2, '%s", %s="%s' % (b_, n2.lower(), c)]]
+        C = [[n1, '%s%%22, %s=%%22%s' % (a, n2.lower(), b_)], [n2, c]]
+        reqs = [[[randcase(rng, n), v] for n, v in rng.choice([A, B, C, A, B])] for _ in range(nreq)]
+        return {"vary": ["%s, %s" % (randcase(rng, n1), randcase(rng, n2))], "reqs": reqs, "kind": "framing"}
     else:
         vary = gen_vary(rng, names)
     # the generator keeps the known-finding shapes (registered single-value header with extra lines / empty) rare
@@ -272,10 +281,11 @@ def oracle(s, obs):
                 found.append((2, "oracle:mismatch-first-line-only:" + n,
                               "request %d (%s lines %r) was served the variant stored for request %d (%s lines %r): only the "
                               "first field line was compared" % (j, n, b, i, n, a)))
-            elif (not a and not any(b)) or (not b and not any(a)):
-                found.append((2, "oracle:mismatch-empty-vs-absent:" + n,
+            elif (not a and not b[0]) or (not b and not a[0]):
+                shape = "empty-vs-absent" if not any(a + b) else "empty-first-line-vs-absent"
+                found.append((2, "oracle:mismatch-%s:%s" % (shape, n),
                               "request %d (%s lines %r) was served the variant stored for request %d (%s lines %r): an empty "
-                              "field matched an absent one" % (j, n, b, i, n, a)))
+                              "(first) field line matched an absent field" % (j, n, b, i, n, a)))
             else:
                 found.append((1, "oracle:variant-mismatch:" + n,
                               "request %d (%s lines %r) was served the variant stored for request %d whose %s lines were %r"
@@ -303,9 +313,9 @@ def run(res, tier):
                 "lines pre-combined, quotes, commas, percent signs and percent-escapes of the same byte, 8-bit bytes, case "
                 "variants) plus noise headers, names in random case; non-trivial = at least one request served from cache, or "
                 "a `*` scenario")
-    std.run_lab(res, PID, tier, area="vary", gens=["hdrtable", "varyesc", "bytemaps"], gen_scenarios=gen_scenarios,
+    std.run_lab(res, PID, tier, area="vary", gens=["hdrtable", "varyesc"], gen_scenarios=gen_scenarios,
                 run_impl=run_impl, to_case=to_case, oracle=oracle,
                 corr_name="VaryModel (vary_run) vs the running squid",
-                n_quick=260, n_thorough=6000, seed_salt=13, kind_fn=_kind,
+                n_quick=400, n_thorough=6000, seed_salt=13, kind_fn=_kind,
                 nontrivial_fn=lambda s, o: s["kind"] == "star" or _kind(s, o).endswith(":hits"))
     _state.clear()
